@@ -752,6 +752,10 @@ class _GzipMessageDelegate(httputil.HTTPMessageDelegate):
         self._connection = connection
         self._decompressed_body_size = 0
         self._decompressor: GzipDecompressor | None = None
+        # Input seen after the end of a gzip member that is too short to
+        # tell whether another member follows.
+        self._member_gap = b""
+        self._ignore_rest = False
 
     def headers_received(
         self,
@@ -770,6 +774,8 @@ class _GzipMessageDelegate(httputil.HTTPMessageDelegate):
     async def data_received(self, chunk: bytes) -> None:
         if self._decompressor:
             compressed_data = chunk
+            if self._decompressor.decompressobj.eof:
+                compressed_data = self._next_member(chunk)
             while compressed_data:
                 decompressed = self._decompressor.decompress(
                     compressed_data, self._chunk_size
@@ -786,6 +792,11 @@ class _GzipMessageDelegate(httputil.HTTPMessageDelegate):
                     if ret is not None:
                         await ret
                 compressed_data = self._decompressor.unconsumed_tail
+                if self._decompressor.decompressobj.eof:
+                    compressed_data = self._next_member(
+                        self._decompressor.decompressobj.unused_data
+                    )
+                    continue
                 if compressed_data and not decompressed:
                     raise httputil.HTTPInputError(
                         "encountered unconsumed gzip data without making progress"
@@ -794,6 +805,26 @@ class _GzipMessageDelegate(httputil.HTTPMessageDelegate):
             ret = self._delegate.data_received(chunk)
             if ret is not None:
                 await ret
+
+    def _next_member(self, data: bytes) -> bytes:
+        """Called with the input that follows the end of a gzip member.
+
+        A gzip stream is a series of members (RFC 1952): if another member
+        follows, switch to a fresh decompressor and return the data to
+        continue with. Anything else after a member is ignored.
+        """
+        data = self._member_gap + data
+        self._member_gap = b""
+        if self._ignore_rest:
+            return b""
+        if len(data) < 2 and b"\x1f\x8b".startswith(data):
+            self._member_gap = data
+            return b""
+        if not data.startswith(b"\x1f\x8b"):
+            self._ignore_rest = True
+            return b""
+        self._decompressor = GzipDecompressor()
+        return data
 
     def finish(self) -> None:
         if self._decompressor is not None:
